@@ -1361,6 +1361,8 @@ const TOKENS: &[&str] = &[
     "Git", "\u{1f600}", "a\u{301}",
     // letter case: a value that is not a keyword keeps its spelling (after seeded change C18-r5m2)
     "Ab", "https://Example.org/Pull/42", "NO", "Not-Needed", "D41D8CD98F00B204", "\u{130}x",
+    // placeholders real files use where a keyword is expected (dpkg-genchanges writes `-`)
+    "-", "--", "unknown", "none",
 ];
 /// outside the property's domain (white space inside / empty): correspondence only
 const NON_TOKENS: &[&str] = &[
